@@ -270,34 +270,95 @@ fn check_main(args: &[String]) {
     finish(property, tier, seed, &info, sum, t0, extra);
 }
 
-fn abort_triage(property: &str, seed: u64, run: u64, how: &str) -> ViolationRec {
-    // confirm in a fresh process and store the (unminimised) plan
+/// Executes the plan of a replay-format file in a fresh process; true if that process dies
+/// abnormally (abort / signal), i.e. neither passes, reports a violation nor a harness error.
+fn dies_in_subprocess(plan_file: &std::path::Path) -> bool {
     let exe = std::env::current_exe().unwrap();
-    let st = Command::new(&exe).args(["exec-run", property, &seed.to_string(), &run.to_string()]).status();
-    let confirmed = st.map(|s| !s.success() && s.code() != Some(1) && s.code() != Some(2)).unwrap_or(false);
-    let plan = plan_value(property, seed, run);
+    Command::new(&exe)
+        .args(["exec-plan", plan_file.to_str().unwrap()])
+        .stdout(std::process::Stdio::null())
+        .stderr(std::process::Stdio::null())
+        .status()
+        .map(|s| !matches!(s.code(), Some(0) | Some(1) | Some(2)))
+        .unwrap_or(false)
+}
+
+fn abort_triage(property: &str, seed: u64, run: u64, how: &str) -> ViolationRec {
+    // confirm in a fresh process; for histsim plans minimise by delta debugging where every
+    // candidate is executed in its own process (the failure kills the process it happens in)
+    let mut plan = plan_value(property, seed, run);
     let path = replay_path(property, seed, run, "-abort");
     let class = "process-abort".to_string();
-    let rf = ReplayFile {
+    let tmp = path.with_extension("cand.json");
+    let mk = |plan: &serde_json::Value, detail: String, orig: usize, min: usize, execs: usize| ReplayFile {
         property: property.to_string(),
         engine: engine_of(property).into(),
         verif_seed: seed,
         run,
-        class: class.clone(),
-        signature: format!("run {run}"),
-        detail: format!("worker process died ({how}); reproduced in a fresh process: {confirmed}"),
-        original_size: 0,
-        minimised_size: 0,
-        minimiser_executions: 0,
-        plan,
+        class: "process-abort".into(),
+        signature: "worker-process-died".into(),
+        detail,
+        original_size: orig,
+        minimised_size: min,
+        minimiser_executions: execs,
+        plan: plan.clone(),
         miri_seed: None,
     };
+    let _ = write_json(&tmp, &mk(&plan, String::new(), 0, 0, 0));
+    let confirmed = dies_in_subprocess(&tmp);
+    let mut execs = 1usize;
+    let (mut orig, mut min) = (0usize, 0usize);
+    if confirmed && matches!(property, "C05" | "C08") {
+        if let Ok(mut hp) = serde_json::from_value::<histsim::HistPlan>(plan.clone()) {
+            orig = hp.n_ops();
+            let mut budget = 200usize;
+            let mut test = |cand: &histsim::HistPlan| -> bool {
+                let _ = write_json(&tmp, &mk(&serde_json::to_value(cand).unwrap(), String::new(), 0, 0, 0));
+                dies_in_subprocess(&tmp)
+            };
+            // drop clients, then operations
+            let mut ci = 0;
+            while hp.clients.len() > 1 && ci < hp.clients.len() && budget > 0 {
+                let mut cand = hp.clone();
+                cand.clients.remove(ci);
+                cand.interleave.clear();
+                budget -= 1;
+                if test(&cand) {
+                    hp = cand;
+                } else {
+                    ci += 1;
+                }
+            }
+            for ci in 0..hp.clients.len() {
+                let base = hp.clone();
+                let kept = ddmin(hp.clients[ci].clone(), &mut budget, |ops| {
+                    let mut cand = base.clone();
+                    cand.clients[ci] = ops.to_vec();
+                    cand.interleave.clear();
+                    test(&cand)
+                });
+                hp.clients[ci] = kept;
+                hp.interleave.clear();
+            }
+            execs += 200 - budget;
+            min = hp.n_ops();
+            plan = serde_json::to_value(&hp).unwrap();
+        }
+    }
+    let _ = std::fs::remove_file(&tmp);
+    let rf = mk(
+        &plan,
+        format!("worker process died ({how}), e.g. a std unsafe-precondition check or debug assertion that aborts; reproduced in a fresh process: {confirmed}"),
+        orig,
+        min,
+        execs,
+    );
     let _ = write_json(&path, &rf);
     ViolationRec {
         property: property.to_string(),
         run,
         class,
-        signature: format!("run {run}"),
+        signature: "worker-process-died".into(),
         detail: rf.detail,
         replay: path.display().to_string(),
     }
@@ -382,6 +443,18 @@ fn replay_main(args: &[String]) {
     let rf: ReplayFile = serde_json::from_slice(&b).unwrap_or_else(|e| harness_error(&format!("bad replay file: {e}")));
     obs::install_quiet_hook();
     println!("replaying property={} engine={} class={} seed={} run={}", rf.property, rf.engine, rf.class, rf.verif_seed, rf.run);
+    if rf.class == "process-abort" {
+        // the failure kills the process it happens in: replay in a child process
+        if dies_in_subprocess(std::path::Path::new(&args[0])) {
+            println!("class=process-abort");
+            println!("detail={}", rf.detail);
+            println!("REPRODUCED: the process executing this plan dies again");
+            println!("VIOLATION property={} replay={}", rf.property, args[0]);
+            std::process::exit(1);
+        }
+        println!("NOT-REPRODUCED: the plan no longer kills the process that executes it");
+        std::process::exit(0);
+    }
     let r = match rf.engine.as_str() {
         "histsim" => hist_engine::replay(&rf),
         "iosim-c07" => c07::replay(&rf),
@@ -639,6 +712,32 @@ fn main() {
         "worker" => worker_main(&args[1..]),
         "replay" => replay_main(&args[1..]),
         "exec-run" => exec_run_main(&args[1..]),
+        "exec-plan" => {
+            // executes the plan of a replay-format file in this process: 0 pass, 1 violation, 2 harness error
+            let b = std::fs::read(&args[1]).unwrap_or_else(|e| harness_error(&format!("cannot read plan file: {e}")));
+            let rf: ReplayFile = serde_json::from_slice(&b).unwrap_or_else(|e| harness_error(&format!("bad plan file: {e}")));
+            obs::install_quiet_hook();
+            let r = match rf.engine.as_str() {
+                "histsim" => {
+                    // no property filter: any violation class counts as "does not die"
+                    let plan: histsim::HistPlan = serde_json::from_value(rf.plan.clone()).unwrap_or_else(|e| harness_error(&e.to_string()));
+                    match hist_engine::run_plan(&plan, None, false, None) {
+                        hist_engine::PlanResult::Pass(_) => Ok(None),
+                        hist_engine::PlanResult::Violation(v, _) => Ok(Some((v.class, v.detail, vec![]))),
+                        hist_engine::PlanResult::HarnessError(e) => Err(e),
+                    }
+                }
+                "iosim-c07" => c07::replay(&rf),
+                "iosim-c17" => c17::replay(&rf),
+                "procsim" => procsim::replay(&rf),
+                _ => Err("unknown engine".into()),
+            };
+            std::process::exit(match r {
+                Ok(None) => 0,
+                Ok(Some(_)) => 1,
+                Err(_) => 2,
+            })
+        }
         "miri-run" => miri_run_main(&args[1..]),
         "show" => {
             let v = plan_value(&args[1], args[2].parse().unwrap(), args[3].parse().unwrap());
